@@ -154,16 +154,23 @@ def modelState (t0 : Nat) (links : List Link) (known : List Nat) (index : List N
     received := fun id => if known.contains id then some (dataOf id) else none,
     indexNode := index, table := [], peerChange := true, receivedChange := true }
 
-def cachedD (g : Graph) : Nat → Nat → Option Int :=
-  let tbl := (List.range g.n).map fun u =>
+/-- All-pairs distances of the model (`bf` from every vertex), tabulated once. A structure, so that
+the table is computed when it is built and not on every lookup. -/
+structure DistTable where
+  tbl : List (List (Option Int))
+
+def mkDistTable (g : Graph) : DistTable :=
+  ⟨(List.range g.n).map fun u =>
     let l := bf g u
-    (List.range g.n).map l.get
-  fun u v => (tbl.getD u []).getD v none
+    (List.range g.n).map l.get⟩
+
+def DistTable.get (t : DistTable) (u v : Nat) : Option Int := (t.tbl.getD u []).getD v none
 
 /-- Correspondence at one instant; `none` = agreement. -/
 def tabModelDiff (now : Nat) (st : State) (goTab : Table) : Option String :=
   let g := buildGraph now st
-  let D := cachedD g
+  let T := mkDistTable g
+  let D := T.get
   let ix := st.indexNode
   let bad := (List.range g.n).findSome? fun i =>
     if i == 0 then none else
